@@ -242,7 +242,7 @@ Definition ex_history : list sreq :=
     SLookup (Slot 3) [46; 46] ].
 
 Lemma ex_run_outside_unchanged :
-  let rf := snd (run (mkCfg true false false false false true 2 false) (start ex_host 12) ex_history) in
+  let rf := snd (run (mkCfg true false false false false true 2 true false) (start ex_host 12) ex_history) in
   get (p_host (r_p rf)) 10 = get ex_host 10 /\ get (p_host (r_p rf)) 11 = get ex_host 11 /\
-  map fst (fst (run (mkCfg true false false false false true 2 false) (start ex_host 12) ex_history)) <> [].
+  map fst (fst (run (mkCfg true false false false false true 2 true false) (start ex_host 12) ex_history)) <> [].
 Proof. vm_compute. repeat split; discriminate. Qed.
